@@ -55,6 +55,7 @@ static inline void ABTI_pool_push(ABTI_pool *p_pool, ABT_unit unit,
 {
     /* Push unit into pool */
     LOG_DEBUG_POOL_PUSH(p_pool, unit);
+    ABTI_VERIF_EVENT(20, p_pool, unit, context);
     p_pool->required_def.p_push(ABTI_pool_get_handle(p_pool), unit, context);
 }
 
@@ -72,6 +73,7 @@ ABTU_ret_err static inline int ABTI_pool_remove(ABTI_pool *p_pool,
                                                 ABT_unit unit)
 {
     LOG_DEBUG_POOL_REMOVE(p_pool, unit);
+    ABTI_VERIF_EVENT(22, p_pool, unit, 0);
     ABTI_UB_ASSERT(p_pool->deprecated_def.p_remove);
     return p_pool->deprecated_def.p_remove(ABTI_pool_get_handle(p_pool), unit);
 }
@@ -84,6 +86,7 @@ static inline ABT_thread ABTI_pool_pop_wait(ABTI_pool *p_pool, double time_secs,
         p_pool->optional_def.p_pop_wait(ABTI_pool_get_handle(p_pool), time_secs,
                                         context);
     LOG_DEBUG_POOL_POP(p_pool, thread);
+    ABTI_VERIF_EVENT(21, p_pool, thread, context);
     return thread;
 }
 
@@ -96,6 +99,7 @@ static inline ABT_thread ABTI_pool_pop(ABTI_pool *p_pool,
     ABT_thread thread =
         p_pool->required_def.p_pop(ABTI_pool_get_handle(p_pool), context);
     LOG_DEBUG_POOL_POP(p_pool, thread);
+    ABTI_VERIF_EVENT(21, p_pool, thread, context);
     return thread;
 }
 
@@ -107,12 +111,14 @@ static inline void ABTI_pool_pop_many(ABTI_pool *p_pool, ABT_thread *threads,
     p_pool->optional_def.p_pop_many(ABTI_pool_get_handle(p_pool), threads, len,
                                     num, context);
     LOG_DEBUG_POOL_POP_MANY(p_pool, threads, *num);
+    ABTI_VERIF_EVENT(24, p_pool, threads, *num);
 }
 
 static inline void ABTI_pool_push_many(ABTI_pool *p_pool, const ABT_unit *units,
                                        size_t num, ABT_pool_context context)
 {
     ABTI_UB_ASSERT(p_pool->optional_def.p_push_many);
+    ABTI_VERIF_EVENT(23, p_pool, units, num);
     p_pool->optional_def.p_push_many(ABTI_pool_get_handle(p_pool), units, num,
                                      context);
     LOG_DEBUG_POOL_PUSH_MANY(p_pool, units, num);
